@@ -232,6 +232,13 @@ let check_line (line : string) : unit =
             if kind = 'd' && not (o_tl_last ttags seg_e) then oracle ("tl_last:" ^ name) lt
           end in
         check_level 0 top_prog tr call;
+        (* C07: the WHOLE log of a full dispatch (every depth in one trace) must be a nested trace of the model
+           (NestedObs.naccept, sound by C07_nested_acceptor_sound): then no two conflicting systems anywhere in the
+           tree overlapped in this run *)
+        if (not faulty) && call = 'd' then begin
+          bump "nested-traces-checked";
+          if not (naccept (nat_of_int 6) regs all_e) then disagree ("naccept:" ^ name) 0 "in-nested-trace-set" "not-accepted"
+        end;
         (* inner levels of harness controllers: segments between D<b> and E<b> *)
         List.iter (fun (lt, prog) ->
             if lt <> 0 && not (List.mem lt multis) then begin
